@@ -263,7 +263,31 @@ class Seq:
             elif ev.kind == 'call' and (ev.node.get('kind') == 'CallExpr' or getattr(ev, 'idiom', False)) and not fn_const:
                 vals = [unver(v) for v in (ev.value or ())]
                 if any(contains(v, S) for v in vals):
-                    out.append(('algo', ev.how, ev))
+                    nm = ev.how
+                    if nm == 'std::move' and len(vals) == 3:
+                        nm = 'std::move(range)'       # the algorithm (it writes through its third argument), not the cast
+                    out.append(('algo', nm, ev))
+        # `std::move(next(P), S.end(), P); S.pop_back();` is vector::erase(P) spelled out: the successors are move-assigned one slot
+        # down in order and the vacated last slot is destroyed
+        i = 0
+        while i + 1 < len(out):
+            k0, n0, e0 = out[i]
+            k1, n1, e1 = out[i + 1]
+            if k0 == 'algo' and n0 == 'std::move(range)' and k1 == 'member' and n1 == 'pop_back':
+                a = [unver(v) for v in e0.value]
+                nxt = (('call', 'std::next', None, a[2], ('const', 1)), ('call', 'std::next', None, a[2]), mk_comm('add', [a[2], ('const', 1)]))
+                if a[0] in nxt and a[1] == vend(S):
+                    from rkstatic.x_symnf import Event
+                    er = Event('mutate', e0.node, nf=e0.nf, place=S, how='erase', value=(e0.value[2],), conds_n=e0.conds_n, extra=e0.extra)
+                    er.ver, er.depth = e0.ver, e0.depth
+                    out[i:i + 2] = [('member', 'erase', er)]
+            i += 1
+        for i, (k0, n0, e0) in enumerate(out):
+            if k0 == 'algo' and n0 == 'std::move(range)':
+                a = [unver(v) for v in e0.value]
+                nxt = (('call', 'std::next', None, a[2], ('const', 1)), ('call', 'std::next', None, a[2]), mk_comm('add', [a[2], ('const', 1)]))
+                if a[0] in nxt and a[1] == vend(S):
+                    out[i] = ('algo', 'std::move(shift-down)', e0)      # the shift alone: the size stays, the last slot is left moved-from
         return out
 
     def is_elem(self, nf):
@@ -870,6 +894,17 @@ def check_flatmap(ctx, tu, tag=''):
                                 kx, K = seq.match_lookup(x)
                                 want_lookup(x, K, kx)
                                 okc = True
+                    lc = seq.lookup_cond(p)
+                    if not okc and lc is not None and isinstance(rv, tuple) and rv[0] == 'const':
+                        # a lookup (a call, or contains' own early-exit loop over the elements) decided on this path, and a constant answer
+                        failed, L, kx, K, _ = lc
+                        want_lookup(L, K, kx)
+                        if (rv[1] == 0) == bool(failed):
+                            okc = True
+                        else:
+                            probs.append(('inverted', 'contains() returns %s on the path where the key was %s' % (
+                                'true' if rv[1] else 'false', 'not found' if failed else 'found')))
+                            continue
                     if not okc and isinstance(rv, tuple) and len(rv) == 6 and rv[:5] == ('call', 'std::any_of', None, vbegin(S), vend(S)) \
                             and isinstance(rv[5], tuple) and rv[5][0] == 'pred' and rv[5][1] == mk_eq(keyexpr0, p0):
                         okc = True
@@ -1591,7 +1626,17 @@ def check_paramobj(ctx, tu, tag=''):
                     if evs:
                         probs.append(('erase-when-missing', 'removeParam modifies the list (`%s`) although the name was not found' % tu.show(evs[0][2].node)))
                 else:
-                    if not any(x[0] == 'member' and x[1] == 'erase' for x in evs):
+                    unk_ = [x for x in evs if x[0] == 'algo' and x[1] not in ALGO_COMPACT and x[1] not in ALGO_REORDER and x[1] != 'std::move(shift-down)']
+                    if not any(x[0] == 'member' and x[1] == 'erase' for x in evs) and unk_:
+                        und.append(('not-erased', 'removeParam hands the list to `%s`, whose effect is not known, and does not erase the found iterator'
+                                    % tu.show(unk_[0][2].node)))
+                    elif not any(x[0] == 'member' and x[1] == 'erase' for x in evs) and any(x[1] == 'std::move(shift-down)' for x in evs) \
+                            and not any(x[0] == 'member' for x in evs):
+                        sh_ = [x for x in evs if x[1] == 'std::move(shift-down)'][0]
+                        probs.append(('not-erased', 'removeParam shifts the entries behind the found one down (`%s`) but never removes the vacated last slot: '
+                                      'the list keeps its length, with an emptied (moved-from, null) entry at the end that every later search dereferences'
+                                      % tu.show(sh_[2].node)))
+                    elif not any(x[0] == 'member' and x[1] == 'erase' for x in evs):
                         did = ', '.join('`%s`' % tu.show(x[2].node) for x in evs) or 'nothing'
                         probs.append(('not-erased', 'removeParam leaves the found entry in the list (it does %s): the name stays stored - with its position '
                                       'and its query flag - so a later setParam of that name gets the old entry back (already "queried", at the old '
